@@ -91,9 +91,18 @@ NoObs     == [k |-> -1]
 
 ICInit == /\ obs = NoObs
           /\ \E mode \in Modes, q \in SeedTilts : ic = [kind |-> "seed", mode |-> mode, q |-> q]
+(* corner launches (both tiers): farthest offset, moving AWAY from the set-point, tilted 53-60 deg, unit
+   body rates -- the region where the outer-loop force demand sits on its 0.3 m g cap for seconds.
+   (added after a seeded change confined to the capped branch went unnoticed by the 12 quick launches) *)
+CornerTilts == { <<3, 1, 1, 1>>, <<2, 1, 0, 0>> }
+CornerOff   == << <<3, 3, 3>>, <<-3, 3, -3>> >>
+CornerVel   == << <<1, 1, 1>>, <<-1, 1, -1>> >>
+MkCorner(mode, q, k) == [kind |-> "ic", mode |-> mode, q |-> q, n |-> 100 + k, yaw |-> Yaws[1], q0 |-> QMul(Yaws[1], q),
+                         off |-> CornerOff[k], vel |-> CornerVel[k], rate |-> <<1, -1, 1>>]
 ICNext == /\ ic.kind = "seed"
-          /\ \E n \in 0..PerSeed : /\ n = 0 => ic.q \in HeadingTilts
-                                   /\ ic' = MkIC(ic.mode, ic.q, n)
+          /\ \/ \E n \in 0..PerSeed : /\ n = 0 => ic.q \in HeadingTilts
+                                      /\ ic' = MkIC(ic.mode, ic.q, n)
+             \/ \E k \in 1..2 : ic.q \in CornerTilts /\ ic' = MkCorner(ic.mode, ic.q, k)
           /\ UNCHANGED obs
 ICInv  == ic.kind = "ic" => ICOK(ic) /\ (HeadingZero(ic) <=> ic.n >= 1)
 ICSeedInv == ic.kind = "seed" => AngleLe60(ic.q) /\ Primitive(ic.q)
